@@ -70,6 +70,7 @@ def sched_parts(pid: str, tier: str):
         mons = ("C03",)
         mk("whole-run-N3-selection", Cfg(N=3, resources="tm", selection=True, activation=True, sym_seq=False, monitors=mons), base_req + ["w_deactivated"], 600)
         mk("whole-run-N3-all-resources", Cfg(N=3, resources="tma", monitors=mons), base_req, 600)
+        mk("whole-run-N3-nested-activation", Cfg(N=3, resources="tm", nested=True, activation=True, sym_seq=False, monitors=mons), base_req + ["w_deactivated", "w_inner_flag"], 600)
         from harness.graph import GCfg, run_c13
         from harness.history import HCfg, run_c11
 
@@ -117,6 +118,8 @@ def sched_parts(pid: str, tier: str):
         mons = ("C08",)
         mk("whole-run-N3", Cfg(N=3, resources="tma", sym_prio=True, routes="dact", monitors=mons), base_req, 600)
         mk("whole-run-N4-threads", Cfg(N=4, resources="t", sym_prio=True, monitors=mons), base_req, 600, 10)
+        # the AsyncDAG flavour: same scheduler, but the limit reaches it through another constructor
+        mk("whole-run-N3-async-flavour", Cfg(N=3, resources="ta", flavours="a", routes="da", monitors=mons), base_req, 600)
         if not q:
             mk("whole-run-N4", Cfg(N=4, resources="tm", sym_prio=False, monitors=mons), base_req, 1500, 9)
     elif pid == "C09":
@@ -196,6 +199,10 @@ def graph_parts(pid: str, tier: str):
     elif pid == "C13":
         parts.append(Part("debug-N3", P(run_c13, GCfg(N=3, setup=True, activation=True, combined=True)), {"N": 3, "debug placement": "every subset", "modes": "call, executor(target/exclude/root x node), setup"}, 600, 5, ["w_invalid_rejected", "w_debug_ran", "w_debug_with_selection", "w_debug_pulled_in", "w_combined_selection"], GRAPH_FUNCS))
         parts.append(Part("debug-N4-combined", P(run_c13, GCfg(N=4, setup=False, combined=True, reconf=False)), {"N": 4, "modes": "call, single and combined (root+target, root+exclude) selections"}, 900, 6, ["w_debug_ran", "w_combined_selection"], GRAPH_FUNCS))
+        from harness.graph import run_c13_build
+
+        parts.append(Part("build-validation-routes", P(run_c13_build, GCfg()), {"nodes": "debug / non-debug producer and consumer, one production bystander", "routes": "positional, keyword, flag, indexed, indexed flag, unpacked, operator, nested DAG argument, nested DAG flag with / without inputs, flag applied inside the nested DAG"},
+                          300, 3, ["w_invalid_rejected", "w_valid_accepted"], GRAPH_FUNCS))
         if not q:
             parts.append(Part("debug-N4-activation", P(run_c13, GCfg(N=4, setup=True, activation=True, combined=True)), {"N": 4}, 2400, 7, ["w_debug_ran"], GRAPH_FUNCS))
     return parts
@@ -304,6 +311,10 @@ def history_parts(pid: str, tier: str):
         from harness.history import run_c18
 
         parts.append(Part("cache-executors-N2", P(run_c18, HCfg(N=2, length=3, flavours="s")), {"N": 2, "what": "an executor started from a cache refuses a second run; a restart from another instance's cache does not change what later calls of this instance see"}, 900, 8, ["w_deps_of_restart", "w_foreign_cache"], HIST_FUNCS))
+        from harness.history import run_c15_setup_inputs
+
+        parts.append(Part("arguments-cannot-reach-setup-nodes", P(run_c15_setup_inputs, HCfg(flavours="sa")), {"routes": "positional, keyword, flag, indexed flag, defaulted-argument flag, flag computed by a node from the argument",
+                          "what": "refused at build time, or two calls with different arguments behave like fresh DAGs"}, 300, 3, ["w_refused"], HIST_FUNCS))
         if not q:
             parts.append(Part("histories-len4", P(run_c15, HCfg(length=4, flavours="s")), dict(b, length="4+1"), 2400, 9, ["w_final_call"], HIST_FUNCS))
     elif pid == "C18":
